@@ -464,7 +464,13 @@ def exists_form(I: Interp, g, tree):
         if len(gs) != 1:
             return None
         pred = gs[0][0] if gs[0][1] else mk_not(gs[0][0])
-        return li.get("iter"), lid, pred
+        it = li.get("iter")
+        if pred == ("elem", lid) and isinstance(it, tuple) and it and it[0] == "ref":
+            # a truth scan over a list of computed values (``any(p(e) for e in xs)`` through its definition): the values' own loop
+            sg = flatten_segs(I, value_segs(I, it, tree), tree)
+            if len(sg) == 1 and sg[0][0] == "loop" and len(sg[0][2]) == 1 and sg[0][2][0][0] == "e" and not I.loops[sg[0][1]].get("conds"):
+                return I.loops[sg[0][1]].get("iter"), sg[0][1], sg[0][2][0][1]
+        return it, lid, pred
     return None
 
 
